@@ -322,7 +322,9 @@ func planFaults(g *G, L *Layout, events []zsimrt.IOEvent, stubCalls int) ([]*zsi
 			nf := 1 + g.n("nflips", 3)
 			for j := 0; j < nf; j++ {
 				off := 0
-				if len(data) > 0 {
+				if len(data) > 0 && !strings.HasSuffix(e.Path, ".yaml") && !strings.HasSuffix(e.Path, ".yml") && g.chance("flip-last", 1, 3) {
+					off = len(data) - 1 - g.n("flip-last-off", 2)%len(data) // the last bytes of env / label files
+				} else if len(data) > 0 {
 					off = g.n("flip-off", len(data))
 					// bias towards YAML-significant bytes
 					if g.chance("flip-sig", 1, 2) {
@@ -361,7 +363,11 @@ func faultOffset(g *G, data string) int {
 		return 0
 	}
 	off := g.n("off", len(data))
-	switch g.n("off-bias", 3) {
+	switch g.n("off-bias", 4) {
+	case 3: // right after a backslash (an escape cut in two)
+		if i := strings.IndexByte(data[off:], '\\'); i >= 0 {
+			off += i + 1
+		}
 	case 0: // line boundary
 		if i := strings.IndexByte(data[off:], '\n'); i >= 0 {
 			off += i + 1
